@@ -657,8 +657,12 @@ theorem sle_setup_ok_solute_in_index (c : Cls K) (cache : SCache) (r : Rows K) (
     · rename_i hk
       simp only [hk, if_true] at hok
       split
-      · rename_i hm; right; exact hm
-      · rename_i hm; simp only [hm, if_false] at hok; cases hok
+      · left; rfl
+      · rename_i hlen1
+        simp only [hlen1, if_false] at hok
+        split
+        · rename_i hm; right; exact hm
+        · rename_i hm; simp only [hm, if_false] at hok; cases hok
     · rename_i hk
       simp only [hk, if_false] at hok
       split
